@@ -517,16 +517,34 @@ func (pd *perBitData) parseSequenceOf(sizeExtensed bool, params fieldParameters,
 	} else if sizeRange == 1 {
 		numElements += uint64(lb)
 	} else {
-		if err := pd.parseAlignBits(); err != nil {
-			return sliceContent, err
+		// general length determinant (X.691 10.9.3.5 - 10.9.3.8): one octet up to 127 elements, two octets up to
+		// 16383, fragments of 16K elements above that
+		ubPtr := params.sizeUpperBound
+		params.sizeExtensible = false
+		params.sizeUpperBound = nil
+		params.sizeLowerBound = nil
+		sliceContent = reflect.MakeSlice(sliceType, 0, 0)
+		for {
+			var repeat bool
+			part, err := pd.parseLength(-1, &repeat)
+			if err != nil {
+				return sliceContent, err
+			}
+			if !sizeExtensed && ubPtr != nil && uint64(sliceContent.Len())+part > uint64(*ubPtr) {
+				return sliceContent, fmt.Errorf("SEQUENCE OF Size is larger than upperbound")
+			}
+			perTrace(2, fmt.Sprintf("Decoding  \"SEQUENCE OF\" struct %s with len(%d)", sliceType.Elem().Name(), part))
+			fragment := reflect.MakeSlice(sliceType, int(part), int(part))
+			for i := 0; i < int(part); i++ {
+				if err := parseField(fragment.Index(i), pd, params); err != nil {
+					return sliceContent, err
+				}
+			}
+			sliceContent = reflect.AppendSlice(sliceContent, fragment)
+			if !repeat {
+				return sliceContent, nil
+			}
 		}
-		if pd.byteOffset >= uint64(len(pd.bytes)) {
-			err := fmt.Errorf("per data out of range")
-			return sliceContent, err
-		}
-		numElements = uint64(pd.bytes[pd.byteOffset])
-		pd.byteOffset++
-		perTrace(1, perBitLog(8, pd.byteOffset, pd.bitsOffset, numElements))
 	}
 	perTrace(2, fmt.Sprintf("Decoding  \"SEQUENCE OF\" struct %s with len(%d)", sliceType.Elem().Name(), numElements))
 	params.sizeExtensible = false
